@@ -426,6 +426,69 @@ pub fn op_json(a: &[&str]) -> String {
     whole
 }
 
+/// the file entry points (`read_json_file`, `EncodableKey::read_from_file`, `write_json_file`, `write_to_file`):
+/// `jsonfile <codec> <content> <kind>` writes `content` to a scratch file whose *name* is of the given kind (plain,
+/// not valid UTF-8, very long, with spaces), or uses a missing path / a directory, and reads it through the file API;
+/// the result is that of the in-memory reader on the same bytes, errors are errors (never a panic)
+pub fn op_jsonfile(a: &[&str]) -> String {
+    use std::os::unix::ffi::OsStringExt;
+    let [codec, h, kind] = a else { return "bad-op".into() };
+    let content = if *h == "-" { vec![] } else { match unhex(h) { Some(b) => b, None => return "bad-op".into() } };
+    let dir = std::env::temp_dir().join(format!("zkh-files-{}-{:?}", std::process::id(), std::thread::current().id()));
+    if std::fs::create_dir_all(&dir).is_err() { return "bad-op".into() }
+    let name: std::ffi::OsString = match *kind {
+        "plain" => "key.json".into(),
+        "spaces" => "my key (copy) .json".into(),
+        "nonutf8" => std::ffi::OsString::from_vec(b"key-\xff\xfe.json".to_vec()),
+        "long" => format!("{}.json", "k".repeat(200)).into(),
+        "missing" => "does-not-exist.json".into(),
+        "dir" => ".".into(),
+        _ => return "bad-op".into(),
+    };
+    let path = dir.join(name);
+    if *kind != "missing" && *kind != "dir" && std::fs::write(&path, &content).is_err() { let _ = std::fs::remove_dir_all(&dir); return "bad-op".into() }
+    use solana_signer::EncodableKey;
+    let via_file = match *codec {
+        "keypair" => {
+            let a = ElGamalKeypair::read_json_file(&path).ok().map(|k| <[u8; 64]>::from(&k).to_vec());
+            let b = <ElGamalKeypair as EncodableKey>::read_from_file(&path).ok().map(|k| <[u8; 64]>::from(&k).to_vec());
+            if a != b { let _ = std::fs::remove_dir_all(&dir); return "variant-mismatch:file-routes".into() }
+            a
+        }
+        "pubkey" => <ElGamalPubkey as EncodableKey>::read_from_file(&path).ok().map(|k| k.to_bytes().to_vec()),
+        "secret" => <ElGamalSecretKey as EncodableKey>::read_from_file(&path).ok().map(|k| k.as_bytes().to_vec()),
+        "aekey" => <AeKey as EncodableKey>::read_from_file(&path).ok().map(|k| <[u8; 16]>::from(k).to_vec()),
+        _ => { let _ = std::fs::remove_dir_all(&dir); return "bad-op".into() }
+    };
+    let out = match &via_file { Some(b) => okhex(b), None => "err".to_string() };
+    // writing the decoded key back to a file (same kind of name) and reading it again gives the same key
+    if let Some(key_bytes) = &via_file {
+        let wpath = dir.join(if *kind == "nonutf8" { std::ffi::OsString::from_vec(b"out-\xfe\xff.json".to_vec()) } else { std::ffi::OsString::from("out.json") });
+        let wrote = match *codec {
+            "keypair" => ElGamalKeypair::try_from(key_bytes.as_slice()).ok().and_then(|k| k.write_json_file(&wpath).ok()),
+            "pubkey" => ElGamalPubkey::try_from(key_bytes.as_slice()).ok().and_then(|k| k.write_to_file(&wpath).ok()),
+            "secret" => ElGamalSecretKey::try_from(key_bytes.as_slice()).ok().and_then(|k| k.write_to_file(&wpath).ok()),
+            "aekey" => AeKey::try_from(key_bytes.as_slice()).ok().and_then(|k| k.write_to_file(&wpath).ok()),
+            _ => None,
+        };
+        match wrote {
+            Some(t) => {
+                let on_disk = std::fs::read(&wpath).unwrap_or_default();
+                if on_disk != t.as_bytes() { let _ = std::fs::remove_dir_all(&dir); return "variant-mismatch:file-written".into() }
+                let again = json_read(codec, &mut std::io::Cursor::new(on_disk));
+                if again != out { let _ = std::fs::remove_dir_all(&dir); return format!("variant-mismatch:file-roundtrip:{}:{}", out, again) }
+            }
+            None => { let _ = std::fs::remove_dir_all(&dir); return "variant-mismatch:file-write-failed".into() }
+        }
+    }
+    let _ = std::fs::remove_dir_all(&dir);
+    if *kind != "missing" && *kind != "dir" {
+        let mem = json_read(codec, &mut std::io::Cursor::new(content));
+        if mem != out { return format!("variant-mismatch:file-vs-memory:{}:{}", out, mem) }
+    }
+    out
+}
+
 fn json_write<W: std::io::Write>(codec: &str, b: &[u8], out: &mut W) -> Option<Option<String>> {
     Some(match codec {
         "keypair" => ElGamalKeypair::try_from(b).ok().and_then(|k| k.write_json(out).ok()),
